@@ -158,6 +158,12 @@ pub fn compare(case: &Case, e: &ScEval, detail: &mut serde_json::Value) -> Optio
     if has_yield {
         must = false;
     }
+    // `notify_one` with two or more waiters queued: which waiter is woken is the implementation's
+    // choice, so results (and deadlocks) that need a particular choice cannot be demanded
+    let free_choice = sc.notify_one_choice;
+    if free_choice {
+        must = false;
+    }
     *detail = serde_json::json!({
         "SC": set_str(&sc.outcomes), "L": set_str(&e.l),
         "reference": {"deadlock": sc.deadlock, "leaks": format!("{:?}", sc.leaks), "race_must": sc.race_max, "race_may": sc.race_min,
@@ -207,7 +213,7 @@ pub fn compare(case: &Case, e: &ScEval, detail: &mut serde_json::Value) -> Optio
             ));
         }
     }
-    if e.panic.is_none() && !has_yield {
+    if e.panic.is_none() && !has_yield && !free_choice {
         let missing: Vec<&Outcome> = sc.outcomes.iter().filter(|x| !e.l.contains(*x)).collect();
         if let Some(m) = missing.first() {
             detail["missing"] = serde_json::json!(missing.iter().take(20).map(|o| fmt_outcome(o)).collect::<Vec<_>>());
